@@ -54,6 +54,27 @@ CHECKS = {
         note=NOTE_COMMON + "Reply bytes -> reply text relies on C01 (the driver runs the control-connection model). Known findings: quoted values are unquoted, data line OK dropped, data line repeating the requested key, literal DEFAULT.",
         technique="Lean 4: loop-invariant induction over parse_keywords + inverse-of-encoder theorems; negation witnesses by decide; differential correspondence",
         ref='§4 C13'),
+    'C05': dict(
+        text=("For every machine state and every chunk: C05_settled (after any dataReceived the machine is never left holding bytes it could have "
+              "processed: <2 bytes in sent_version, an incomplete reply in sent_request, an empty buffer in relaying), C05_relay_step (once relaying each "
+              "chunk is delivered whole and at once), C05_handover_ipv4 / C05_wait / C05_failure_reply (the application is created exactly when the "
+              "buffered bytes are a complete success reply, then gets all following bytes in the same step; nothing observable before), C05_once, "
+              "C05_errors (reply code -> class over the generated error table, code preserved). The automat transition table is regenerated from the "
+              "source and interpreted. The run-level law observe(run chunks) = specObs(total stream) is checked by the correspondence run on several "
+              "segmentations (whole, byte-wise, all two-cut splits of short streams, random) of every generated stream, with disconnects injected."),
+        note=NOTE_COMMON + "Partial in one respect: the equality between a whole run and the stream-level spec (specObs) is validated differentially, "
+             "not proved as one theorem; the per-step theorems and the settled invariant are proved. Known finding: CONNECT answered with a domain-type address.",
+        technique="Lean 4: state invariant + per-step theorems over a model interpreting the generated automat table; differential correspondence incl. stream-level spec",
+        ref='§4 C05'),
+    'C06': dict(
+        text=("C06_connect_host / C06_connect_v4 / C06_resolve / C06_ptr_v4 / C06_ptr_v6: for every host name of up to 255 ASCII bytes, every IPv4/IPv6 "
+              "address and EVERY port < 65536, the independent RFC 1928 decoder reads back exactly (command, address type, full address, port) from the "
+              "bytes produced by the packers run over the struct.pack format strings extracted from the source; C06_greeting; C06_refuse (over-long, "
+              "non-ASCII, out-of-range: nothing produced); C06_fails_connect_v6 is the kernel-checked witness of the listed finding. Correspondence: "
+              "bytes written by the real machine vs model, and decoded by the Lean decoder; all 65536 ports x 6 targets in the thorough tier."),
+        note=NOTE_COMMON + "Text->address classification (ipaddress/inet_pton) is trusted and cross-checked. Known finding: CONNECT to an IPv6 literal carries 4 of 16 address bytes (pinned by test_socks_ipv6).",
+        technique="Lean 4: decode-after-encode theorems over an interpreter of the extracted struct formats; differential correspondence",
+        ref='§4 C06'),
     'C12': dict(
         text=("Theorems C12_roundtrip / C12_one_line / C12_refuse_iff / C12_wire: for every list of pairs and every value over all of Char, "
               "Tor's SETCONF grammar (Spec/KvLine) parses the model's command back to exactly the pairs, and the command contains no CR/LF; "
